@@ -18,6 +18,7 @@ from vlib.ref import group as G
 from vlib.ref.action import ref_action
 
 ID = "C10"
+INPUTS_MUST_BE_UNCHANGED = True  # runner post-condition: no call modifies the input object it is given
 LEVEL = "exploration"
 DESIGN_REF = "DESIGN.md §4 C10"
 RULE = (
@@ -29,7 +30,7 @@ RULE = (
 ASSUMPTIONS = [
     "inner models are a fixed family of 7 non-equivariant maps (integer polynomial ones compared exactly when |G| is a power of two, else 1e-5); 'any inner model' is covered by that family, not by all functions",
     "groups: all <=2-generated subgroups of B_2; named subgroups of B_3 (quick) / all <=2-generated subgroups of B_3 (thorough)",
-    "square extents for general G; non-square extents only for axis-preserving G (subgroups of C2^d), where the inner model's position weights are defined for the rotated extents",
+    "square extents and non-square extents (3x4, 2x3x4) for every G, including axis-exchanging ones (the inner models compute their position weights from the extents they are handed, so they accept both orientations)",
     "Climate1D: lossless round trip claimed for inputs without constant fields and future_steps == past_steps (from1d has no constant-field inverse)",
 ]
 
@@ -71,6 +72,11 @@ def cases(tier, seed):
                     if tier == "thorough" and d == 3 and len(grp) > 8 and (inner not in ("component", "typechange", "tanh") or sig not in ("sv", "pseudo")):
                         continue  # large subgroups of B_3: three inner models x two signatures (cost grows with |G|^2)
                     out.append({"kind": "ga", "d": d, "G": gname, "inner": inner, "sig": sig, "cost": max(1, len(grp) // 4), "grp": f"ga{d}"})
+                    # groups that exchange axes on NON-square images: g.x has other extents than x, the inner models are
+                    # defined for any extents (their position weights are computed from the extents they are given)
+                    axis_preserving = all(np.array_equal(np.abs(g), np.eye(d, dtype=int)) for g in grp)
+                    if not axis_preserving and sig in ("sv", "pseudo") and (d == 2 or inner in ("posweight", "typechange", "tanh")) and (tier == "thorough" or d == 2 or len(grp) <= 8):
+                        out.append({"kind": "ga", "d": d, "G": gname, "inner": inner, "sig": sig, "rect": True, "cost": max(1, len(grp) // 4), "grp": f"ga{d}"})
     types = [(0, 0), (0, 1), (1, 0)]
     for ext in ([4, 3], [3, 3], [5, 2], [2, 4]):
         for past, fut in it.product((1, 2, 3), repeat=2):
@@ -141,7 +147,7 @@ def _ga_case(case, seed):
     tier_groups = _groups(D, "thorough" if case["G"].startswith("sub") else "quick")
     grp = tier_groups[case["G"]]
     axis_preserving = all(np.array_equal(np.abs(g), np.eye(D, dtype=int)) for g in grp)
-    sp = ((3, 4) if D == 2 else (2, 3, 4)) if axis_preserving else (3,) * D
+    sp = ((3, 4) if D == 2 else (2, 3, 4)) if (axis_preserving or case.get("rect")) else (3,) * D
     sig = GA_SIGS[case["sig"]]
     order = [tuple(kp) for kp, _ in sig]
     rng = rng_for(0, "C10ga", repr(sorted(case.items())))
@@ -198,7 +204,7 @@ def _ga_case(case, seed):
     evals += 1
     if any(not np.array_equal(b0[t], base_inner[t]) for t in base_inner):
         bad("C10/GroupAverage/empty-operators", "empty operator list: wrapper output != inner model output")
-    return {"violations": v, "nt": len(grp) > 1 and inner_defect > 1e-3, "evals": evals, "outcome": f"ga/d{D}/|G|={len(grp)}/inner-breaks={inner_defect > 1e-3}"}
+    return {"violations": v, "nt": len(grp) > 1 and inner_defect > 1e-3, "evals": evals, "outcome": f"ga/d{D}/|G|={len(grp)}/rect={bool(case.get('rect'))}/inner-breaks={inner_defect > 1e-3}"}
 
 
 def _climate_case(case, seed):
